@@ -243,6 +243,8 @@ def call_method(I, recv, name, argexprs, scope, frame, g, hint, e):
             return recv.union(I.deref(arg()))
         if name == "difference":
             return recv.difference(I.deref(arg()))
+        if name == "mapped":
+            return recv.mapped([I.deref(x) for x in args()])
         if name == "insert_restriction":
             a = args()
             recv.insert_restriction(g, I.deref(a[0]), I.deref(a[1]))
@@ -319,6 +321,20 @@ def call_method(I, recv, name, argexprs, scope, frame, g, hint, e):
             recv.clear(g)
             return UNIT
         raise Unsupported("map method " + name)
+    if isinstance(recv, EnumV) and recv.ty == "Result":
+        ok = recv.alts["Ok"][0] if "Ok" in recv.alts else F
+        if name in ("expect", "unwrap"):
+            I.event(c.and2(g, -ok), "panic", "unwrap/expect on Err (line %s)" % e.get("line"))
+            if "Ok" not in recv.alts:
+                return UNDEF
+            return recv.alts["Ok"][1][0]
+        if name == "is_ok":
+            return mkbool(ok)
+        if name == "is_err":
+            return mkbool(-ok)
+        if name == "ok":
+            return OptV(ok, recv.alts["Ok"][1][0] if "Ok" in recv.alts else UNDEF)
+        raise Unsupported("Result method " + name)
     if isinstance(recv, EnumV) and recv.ty == "Entry":
         ent = recv.alts["Occupied"][1][0]
         if name == "or_default":
